@@ -106,6 +106,10 @@ func registered(dc *fosite.DefaultClient, c *HClient) fosite.Client {
 type HTok struct {
 	Ref    int  `json:"ref"` // index into the log of issued credentials; -1 = a token the server never issued
 	Tamper bool `json:"tamper"`
+	// a token the server never issued, made from an issued one (1-based index into the issued credentials, 0 = none)
+	// by adding white space after it: another string, hence another (unknown) credential for the model
+	PadOf int    `json:"pad_of,omitempty"`
+	Pad   string `json:"pad,omitempty"`
 }
 
 type HOp struct {
@@ -133,6 +137,7 @@ type HOp struct {
 	Bearer *HTok `json:"bearer,omitempty"`
 	// PAR: client_id in the body (-1 = absent), request_uri smuggled into the push, foreign-prefix request_uri
 	BodyClient    int  `json:"body_client,omitempty"`
+	IDInQuery     bool `json:"client_id_in_query,omitempty"` // push: the client_id travels in the request URI's query instead of the body (r.Form merges both: same operation for the model)
 	HasRequestURI bool `json:"has_request_uri,omitempty"`
 	ForeignURI    bool `json:"foreign_uri,omitempty"`
 	// device decision
@@ -339,6 +344,9 @@ func clientIndex(id string) int {
 }
 
 func (w *world) token(t HTok, kind string) string {
+	if (t.Ref < 0 || t.Ref >= len(w.issued)) && t.PadOf > 0 && t.PadOf <= len(w.issued) && t.Pad != "" {
+		return w.issued[t.PadOf-1].tok + t.Pad
+	}
 	if t.Ref < 0 || t.Ref >= len(w.issued) {
 		return "ory_" + kind + "_AAAAAAAAAAAAAAAAAAAAAAAAAAAAAAAAAAAAAAAAAAA.BBBBBBBBBBBBBBBBBBBBBBBBBBBBBBBBBBBBBBBBBBB"
 	}
@@ -458,9 +466,12 @@ func (w *world) exec(op *HOp) HObs {
 			q.Set("response_mode", op.Mode)
 		}
 		if op.Kind == "push" {
-			bc := q.Get("client_id")
-			req := w.postReq("/par", q, op.Auth)
-			_ = bc
+			path := "/par"
+			if op.IDInQuery && q.Get("client_id") != "" && op.Auth >= 0 && op.Auth < len(w.clients) && (!w.clients[op.Auth].Public || op.PublicBasic) {
+				path += "?client_id=" + url.QueryEscape(q.Get("client_id"))
+				q.Del("client_id")
+			}
+			req := w.postReq(path, q, op.Auth)
 			par, err := w.prov.NewPushedAuthorizeRequest(ctx, req)
 			if err != nil {
 				o.Err = errName(err)
@@ -981,7 +992,11 @@ func coqPayload(p *HPayload) string {
 	if p.Exp != nil {
 		exp = "(Some " + Z(*p.Exp) + ")"
 	}
-	return fmt.Sprintf("(Some (Build_payload %s %d %s %s %s %s))", coqKind(p.Use), p.Client, Q(p.Subject), QL(p.Scopes), QL(p.Aud), exp)
+	cl := p.Client
+	if cl < 0 {
+		cl = 9999 // an answer that names no registered client
+	}
+	return fmt.Sprintf("(Some (Build_payload %s %d %s %s %s %s))", coqKind(p.Use), cl, Q(p.Subject), QL(p.Scopes), QL(p.Aud), exp)
 }
 
 // probe vectors are written as the entries that changed since the previous step
